@@ -128,7 +128,9 @@ fn ends_in_comment(s: &str) -> bool {
   while let Some(c) = chars.next() {
     match quote {
       Some(q) => {
-        if c == '\\' {
+        // only text strings have escapes; a byte string ends at the next
+        // apostrophe (cddl.pest: BYTE_STRING_INNER)
+        if c == '\\' && q == '"' {
           chars.next();
         } else if c == q {
           quote = None;
@@ -137,6 +139,39 @@ fn ends_in_comment(s: &str) -> bool {
       None => match c {
         '"' | '\'' => quote = Some(c),
         ';' => return true,
+        _ => {}
+      },
+    }
+  }
+  false
+}
+
+/// Whether a line break in `s` lies inside a text or byte string literal
+/// (a `'...'` byte string may contain raw line breaks). Such a line break is
+/// part of a value, not layout.
+fn line_break_inside_literal(s: &str) -> bool {
+  let mut quote: Option<char> = None;
+  let mut comment = false;
+  let mut chars = s.chars();
+  while let Some(c) = chars.next() {
+    if comment {
+      comment = c != '\n';
+      continue;
+    }
+    match quote {
+      Some(q) => {
+        if c == '\n' {
+          return true;
+        }
+        if c == '\\' && q == '"' {
+          chars.next();
+        } else if c == q {
+          quote = None;
+        }
+      }
+      None => match c {
+        '"' | '\'' => quote = Some(c),
+        ';' => comment = true,
         _ => {}
       },
     }
@@ -2103,12 +2138,16 @@ impl fmt::Display for Group<'_> {
         && gc.group_entries.len() <= 3
         && !gc.has_entries_with_comments_before_comma()
         && !gc_str.lines().any(ends_in_comment)
+        && !line_break_inside_literal(&gc_str)
       {
         gc_str = gc_str.replace('\n', "");
       }
 
       #[cfg(not(feature = "ast-comments"))]
-      if self.group_choices.len() > 2 && gc.group_entries.len() <= 3 {
+      if self.group_choices.len() > 2
+        && gc.group_entries.len() <= 3
+        && !line_break_inside_literal(&gc_str)
+      {
         gc_str = gc_str.replace('\n', "");
       }
 
